@@ -180,6 +180,14 @@ def parse_vspec(path):
                 raise SystemExit("%s:%d: unknown directive %s" % (path, ln, key))
         else:
             if cur_block is not None:
+                # `//~block C02 ...`: every following line of this payload block carries these
+                # property tags (a failing hint inside the block is attributed to exactly them)
+                if raw.strip().startswith("//~block"):
+                    cur_block.block_tag = " ".join(re.findall(r"C\d{2,3}", raw))
+                    continue
+                bt = getattr(cur_block, "block_tag", None)
+                if bt and raw.strip() and "//~" not in raw:
+                    raw = raw + " //~ " + bt
                 cur_block.payload.append((raw, ln))
     return unit
 
